@@ -309,6 +309,61 @@ theorem pickPositionsNoRepl_ok : ∀ (k : Nat) (hat : List Nat) (w2 : List α) (
       rfl
     · exact ((List.subperm_cons h).mpr hsub).trans (swapPop_perm hget).symm.subperm
 
+/-- whatever the draws and the weights, an answer of weighted sampling with replacement only
+holds source elements -/
+theorem sampleWRepl_mem {vin : List τ} (hat : List Nat) (w : List α) : ∀ (k : Nat) (draws : List α) (out : List τ),
+    sampleWRepl vin hat w k draws = .ok out → out.length = k ∧ ∀ x ∈ out, x ∈ vin
+  | 0, _, out, h => by
+    simp only [sampleWRepl, Except.ok.injEq] at h; subst h; exact ⟨rfl, fun _ h => by cases h⟩
+  | k + 1, draws, out, h => by
+    unfold sampleWRepl at h
+    split at h
+    · cases h
+    · cases draws with
+      | nil => cases h
+      | cons d ds =>
+        dsimp only at h
+        cases hp : pickOneWConst hat w d with
+        | error e => rw [hp] at h; cases h
+        | ok hh =>
+          rw [hp] at h; dsimp only at h
+          cases hv : vin[hh]? with
+          | none => rw [hv] at h; cases h
+          | some x =>
+            rw [hv] at h; dsimp only at h
+            cases hr : sampleWRepl vin hat w k ds with
+            | error e => rw [hr] at h; cases h
+            | ok r =>
+              rw [hr] at h
+              simp only [Except.ok.injEq] at h; subst h
+              obtain ⟨hl, hm⟩ := sampleWRepl_mem hat w k ds r hr
+              refine ⟨by simp [hl], ?_⟩
+              intro y hy
+              rcases List.mem_cons.mp hy with rfl | hy
+              · exact List.mem_of_getElem? hv
+              · exact hm y hy
+
+/-- … and it does answer when there is one weight per element and enough draws -/
+theorem sampleWRepl_ok {vin : List τ} (w : List α) (hw : w.length = vin.length) (hne : vin ≠ []) : ∀ (k : Nat) (draws : List α),
+    k ≤ draws.length → ∃ out, sampleWRepl vin (List.range vin.length) w k draws = .ok out
+  | 0, _, _ => ⟨[], rfl⟩
+  | k + 1, [], h => by simp at h
+  | k + 1, d :: ds, h => by
+    have hn : 0 < vin.length := List.length_pos_iff.mpr hne
+    have hrne : List.range vin.length ≠ [] := by simp; omega
+    have hre : (List.range vin.length).isEmpty = false := by
+      cases hr : List.range vin.length with
+      | nil => exact absurd hr hrne
+      | cons _ _ => rfl
+    obtain ⟨pos, e, hlt, hget, _, hpick⟩ := pickOneW_ok (v := List.range vin.length) (w := w) hrne (by simp [hw]) true d
+    have he : e < vin.length := by
+      have := List.mem_of_getElem? hget
+      exact List.mem_range.mp this
+    obtain ⟨out, ho⟩ := sampleWRepl_ok w hw hne k ds (by simpa using h)
+    refine ⟨vin[e] :: out, ?_⟩
+    unfold sampleWRepl
+    simp only [hre, pickOneWConst, hpick, if_true, List.getElem?_eq_getElem he, ho, Bool.false_eq_true, if_false]
+
 end Weighted
 
 /-! ## the executable predicates of the driver mean what the theorems say -/
